@@ -1,4 +1,5 @@
 """C14 - only the MSC true<->geometric path conversion bounds are decided."""
+from facts import AnalysisBroken  # noqa
 from common import C, short, local_refs
 from cfg import path_leaf
 import effects
@@ -173,7 +174,12 @@ def range_inverse_agree(db, cx):
     is negative for small steps."""
     import re as _re
 
-    def scales(f):
+    def scales(f, e_first):
+        """(energy scale, range scale) of each {x, y} point handed to the interpolator.  Which
+        component is the energy is fixed by the direction of the calculator (x for range(E), y for
+        its inverse); the log-energy grid is stored in log space, so `exp(.)` around it means
+        linear energy and the bare element log energy; `log(.)` around a range value means log
+        range.  Anything else is outside the vocabulary."""
         out = []
         for (_b, _i, e) in f.events("call"):
             if e["callee"] != C + "Interpolator::Interpolator" or len(e.get("args", [])) != 2:
@@ -182,7 +188,6 @@ def range_inverse_agree(db, cx):
                 t = (a.get("t") or "").strip()
                 if not (t.startswith("{") and t.endswith("}")):
                     return None
-                # split the two components at the top-level comma
                 d, cut = 0, None
                 for k_, ch in enumerate(t[1:-1]):
                     d += ch in "([{"
@@ -192,23 +197,29 @@ def range_inverse_agree(db, cx):
                         break
                 if cut is None:
                     return None
-                comps = [t[1:cut].strip(), t[cut + 1:-1].strip()]
-                sc = {}
-                for cpt in comps:
-                    c0 = cpt.replace("std::", "").replace("this->", "")
-                    is_e = bool(_re.search(r"log_?e|loge|log_energy", c0))
-                    if is_e:
-                        sc["E"] = "linear" if _re.match(r"^exp\(", c0) else ("log" if not _re.search(r"\b(exp|log)\(", c0) else "?")
-                    else:
-                        sc["r"] = "log" if _re.match(r"^log\(", c0) else ("linear" if not _re.search(r"\b(exp|log|sqrt)\(", c0) else "?")
-                out.append((sc.get("E"), sc.get("r")))
+                comps = [t[1:cut].strip().replace("std::", "").replace("this->", ""),
+                         t[cut + 1:-1].strip().replace("std::", "").replace("this->", "")]
+                ec, rc = (comps[0], comps[1]) if e_first else (comps[1], comps[0])
+
+                def wrap(c0):
+                    m_ = _re.match(r"^([A-Za-z_0-9]+)\(", c0)
+                    fn = m_.group(1) if m_ and c0.endswith(")") and m_.group(1) in ("exp", "exp2", "log", "log2", "sqrt") else None
+                    inner_fn = _re.search(r"\b(exp|exp2|log|log2|sqrt|pow)\(", c0[len(fn) + 1:] if fn else c0)
+                    return "?" if inner_fn else (fn or "")
+                we, wr = wrap(ec), wrap(rc)
+                es = {"exp": "linear", "": "log"}.get(we, "?")
+                rs = {"log": "log", "": "linear"}.get(wr, "?")
+                out.append((es, rs))
         return out
     fr = db.get(C + "RangeCalculator::operator()")
     fi = db.get(C + "InverseRangeCalculator::operator()")
     cx.require(fr and fi, "anchors RangeCalculator / InverseRangeCalculator operator() not found")
-    sr, si = scales(fr[0]), scales(fi[0])
+    sr, si = scales(fr[0], True), scales(fi[0], False)
     cx.require(sr and si, "range calculators no longer build a two-point interpolator from {x, y} pairs")
-    ok = len(set(sr)) == 1 and len(set(si)) == 1 and sr[0] == si[0] and None not in sr[0] and "?" not in sr[0]
+    if any("?" in x for x in sr + si):
+        raise AnalysisBroken("C14.11: an interpolation point of the range calculators is built with a "
+                             "function outside the vocabulary {exp, log}: %s / %s" % (sr, si))
+    ok = len(set(sr)) == 1 and len(set(si)) == 1 and sr[0] == si[0]
     cx.ob("C14.11-range-inverse-agree", "range and inverse range interpolate on the same (energy, range) scales",
           ok, "RangeCalculator: E %s, r %s; InverseRangeCalculator: E %s, r %s" % (sr[0] + si[0]),
           short(fr[0].loc),
